@@ -51,9 +51,10 @@ def field_count_range(fields):
         if vars_ and vars_[0][3] is not None and ',' in (vars_[0][3] or ''):
             mn += 0
             mx = INF
-        elif any(p[0] == 'unk' for p in f) and not any(p[0] in ('conv', 'lit') for p in f):
+        elif any(p[0] == 'unk' for p in f):
+            # a piece of text that is not known: it may hold any number of further fields
             mn += 1
-            mx = INF if mx == INF else mx + 1
+            mx = INF
         else:
             mn += 1
             mx = INF if mx == INF else mx + 1
